@@ -116,6 +116,88 @@ def _containers(ctx, m, mod, funcs, locks):
                % (len(containers), sorted(containers)), True, F)
 
 
+TOTAL_CALLS = ('str', 'repr', 'len', 'int')
+
+
+def _id_consumed(ctx, compile_fn, enclosing_with):
+    """(D1) once a name was derived from the counter, the counter is advanced before anything that can fail runs.
+    Otherwise a filter that parses but does not compile (e.g. > 200 `and` terms: SyntaxError) leaves its id unused;
+    the next filter gets the same name, and when the failed wrapper is finalised its __del__ removes the function of
+    that next, still cached, filter."""
+    incs = [n for n in walk_no_nested(compile_fn) if isinstance(n, ast.AugAssign) and isinstance(n.target, ast.Name)]
+    if len(incs) != 1:
+        return      # the increment rule of D1 reports this
+    inc = incs[0]
+    w = enclosing_with(inc)
+    if w is None:
+        return
+    g = inc.target.id
+    body = w.body
+    if inc not in body:
+        ctx.error('C13.D1', 'the counter increment is nested inside another statement of the critical section; cannot decide')
+        return
+    reads = [i for i, st in enumerate(body) if st is not inc and any(isinstance(x, ast.Name) and x.id == g for x in ast.walk(st))]
+    if not reads:
+        return
+    first = reads[0]
+    k = body.index(inc)
+    if k < first:
+        ctx.violation('C13.D1', '%s::_filter_function' % F, norm(inc), 'the name is derived from the counter after it was advanced',
+                      'increment precedes the read', file=F, line=inc.lineno, engine='E11')
+        return
+    risky = []
+    for st in body[first:k]:
+        for c in ast.walk(st):
+            if isinstance(c, ast.Call) and norm(c.func) not in TOTAL_CALLS and not (
+                    isinstance(c.func, ast.Attribute) and c.func.attr == 'join'):
+                risky.append((st, c))
+    if risky:
+        st, c = risky[0]
+        ctx.violation('C13.D1', '%s::_filter_function' % F, norm(st)[:160],
+                      'history: compile a filter that parses but is not valid Python (a chain of 250 `and` terms: SyntaxError in '
+                      'exec) and keep the exception; compile filter B -- it receives the SAME generated name, because `%s` raised '
+                      'before the counter was advanced; when the failed wrapper is finalised its __del__ deletes B\'s function: '
+                      'the cached filter B now raises KeyError' % norm(c)[:50],
+                      'between deriving the name from %s and advancing %s the critical section runs `%s`, which can raise: a failed '
+                      'compilation does not consume its id' % (g, g, norm(c)[:50]), file=F, line=st.lineno, engine='E11')
+    else:
+        ctx.ob('C13.D1', 'nothing that can fail runs between deriving the name and advancing the counter', True,
+               '%s:%d' % (F, inc.lineno))
+
+
+def _grid_filter_state(ctx, m):
+    """(D5) Grid.filter keeps no per-grid record of "the current filter": a memo written and read back in two steps is a
+    check-then-act on state shared by the threads that filter the same grid."""
+    try:
+        ff = m.func('grid', 'Grid.filter')
+    except AnalysisError as e:
+        ctx.error('C13.D5', str(e))
+        return
+    s = ff.args.args[0].arg
+    stores = []
+    for n in walk_no_nested(ff):
+        if isinstance(n, (ast.Assign, ast.AugAssign)):
+            for t in (n.targets if isinstance(n, ast.Assign) else [n.target]):
+                b = t
+                while isinstance(b, (ast.Attribute, ast.Subscript)):
+                    b = b.value
+                if isinstance(b, ast.Name) and b.id == s and not isinstance(t, ast.Name):
+                    stores.append((n, t))
+    if not stores:
+        ctx.ob('C13.D5', 'Grid.filter stores nothing on the grid: two threads filtering one grid share no filter state', True,
+               'hszinc/grid.py:%d' % ff.lineno)
+        return
+    n, t = stores[0]
+    attr = norm(t)
+    reads = [x for x in ast.walk(ff) if isinstance(x, ast.Attribute) and norm(x) == attr.split('[')[0] and isinstance(x.ctx, ast.Load)]
+    ctx.violation('C13.D5', 'hszinc/grid.py::Grid.filter', norm(n),
+                  'schedule: thread A runs `%s` for filter 1 and is preempted; thread B runs the same statement for filter 2 on the '
+                  'same grid; A resumes and reads `%s` back (line %s) -- A evaluates filter 1 with the function compiled for '
+                  'filter 2 and returns B\'s rows' % (norm(n)[:60], attr.split('[')[0], reads[-1].lineno if reads else '?'),
+                  'Grid.filter records the filter being applied on the grid (%s) and reads it back: a check-then-act on state '
+                  'shared between threads' % attr.split('[')[0], file='hszinc/grid.py', line=n.lineno, engine='E11')
+
+
 def run(ctx):
     m = ctx.model
     mod = m.mod(MOD)
@@ -261,6 +343,8 @@ def run(ctx):
             ctx.error('C13.D1', 'shape of the generated name not recognised: %s' % norm(v))
 
     _containers(ctx, m, mod, funcs, locks)
+    _id_consumed(ctx, compile_fn, enclosing_with)
+    _grid_filter_state(ctx, m)
 
     # ---- D2 name lifetime: shared-namespace writes
     try:
